@@ -62,6 +62,8 @@ type boundsProver struct {
 	// nilMods: fields possibly written on paths to a return whose value may be nil
 	nilMods map[*ssa.Function]map[fieldKey]bool
 	log     []string
+	// basesOnly: per struct type, whether its fields are stored only through parameters / local allocations
+	basesOnly map[*types.Named]bool
 }
 
 // ---------------------------------------------------------------------------------------------
